@@ -19,26 +19,45 @@ Layers (all enumerated completely; sizes are measured and written to the evidenc
        used UNREDUCED as a child of every observing depth-1 context                     - depth 2
   TV   hand-written lexical variants (no-space operators, number/string literal forms, comments)
   TOOL tool-call argument evaluation (`probe(<expr>, k=<expr>)`) on the auto / tool pathways
+  NM   names Python cannot resolve (`true`, `false` - aliases on the logic / transform pathways only - and
+       an unbound name): every constructor over them (depth 1) and every depth-1 member unreduced in
+       every observing context (depth 2)
+  HIST history independence: every text of FE1, NM1, TV, a complete depth-1 structural layer and a
+       tool-call family is evaluated on every order of its four pathways (quick: 12 orders, one per
+       ordered pair in front) x 3 instance patterns (one instance / alternating between two differently
+       configured instances, starting with either; tool calls finally on an instance without the tool);
+       every sequence starts text-fresh in a newly forked process and EVERY evaluation of it is judged
+
+In all layers the pathways of one text are evaluated in an order chosen by a digest of the text, so the
+long-lived worker processes see every pathway before and after every other one.
 
 Oracle (one-directional, from the statement): engine success => value equals Python's value with
-equal type (bool-coerced when the result pathway is the logic pathway); Python raises => engine
-must report failure. Engine failure where Python succeeds is allowed and only counted.
+equal type (bool-coerced when the pathway the caller forced - or auto-detection reported - is the logic
+pathway); Python raises => engine must report failure. Engine failure where Python succeeds is allowed
+and only counted (also when it depends on the history).
 
 Violation keys name the blamed mechanism: the smallest sub-expression whose math-pathway value
 is wrong while all its own children are right (`walker:BoolOp`, `walker:Call:keywords`,
 `walker:BinOp:Div`, `walker:Compare:chain` ...), or the front end when the logic pathway disagrees
-with the math pathway on the same text (`logic-frontend:bool-word-in-string`).
+with the math pathway on the same text (`logic-frontend:bool-word-in-string`), or the history when the
+answer is only wrong after other evaluations of the text (`history:math-after-logic:process-wide`).
 """
 from __future__ import annotations
 
 import ast
 import builtins
+import io
+import itertools
 import math
+import multiprocessing
+import os
+import sys
 import warnings
+import zlib
 
 from mc import common
 
-from operon_ai.organelles.mitochondria import MetabolicPathway, Mitochondria
+from operon_ai.organelles.mitochondria import MetabolicPathway, Mitochondria, SimpleTool
 
 warnings.simplefilter("ignore")
 
@@ -55,6 +74,19 @@ def _probe(*a, **k):
     return ("probe", a, tuple(sorted(k.items())))
 
 
+def _boom(*a, **k):
+    raise ValueError()  # empty message
+
+
+def _stop(*a, **k):
+    raise StopIteration
+
+
+# tools registered next to `probe`: falsy-but-valid answers and raising callbacks
+ODD_TOOLS = {"nul": lambda *a, **k: None, "zero": lambda *a, **k: 0, "empty": lambda *a, **k: "", "boom": _boom, "stop": _stop}
+TOOL_NAMES = ("probe",) + tuple(ODD_TOOLS)
+
+
 def _namespaces():
     ns = {}
     for n in DOC_BUILTIN:
@@ -65,6 +97,7 @@ def _namespaces():
     for n in extra:  # names beyond the documented list: the library's choice, taken from its table
         ns[n] = Mitochondria.SAFE_FUNCTIONS[n]
     ns["probe"] = _probe
+    ns.update(ODD_TOOLS)
     alt = dict(ns)
     alt["pow"] = builtins.pow  # `pow` exists in both modules: either binding is accepted
     return ns, alt, extra
@@ -72,12 +105,29 @@ def _namespaces():
 
 NS, NS_ALT, EXTRA_NAMES = _namespaces()
 _G = {"__builtins__": {}}
+# the logic pathway documents the lowercase names true/false as aliases of True/False, and the transform pathway is
+# JSON-first (JSON's true/false): on these two pathways the two names belong to the allow-listed names; on the math and
+# tool pathways they are unknown names (Python raises NameError, so the engine has to report failure)
+ALIASES = {"true": True, "false": False}
+NS_A, NS_ALT_A = {**NS, **ALIASES}, {**NS_ALT, **ALIASES}
+NS_NOTOOL = {k: v for k, v in NS.items() if k not in TOOL_NAMES}
+NS_NOTOOL_A = {**NS_NOTOOL, **ALIASES}
 
 
-def ref_eval(text):
+def has_alias(text):
+    return "true" in text or "false" in text
+
+
+def ref_eval(text, alias=False, notool=False):
     """list of acceptable Python outcomes: ('ok', value) | ('exc', ExcName)"""
     outs = []
-    for ns in ((NS, NS_ALT) if "pow" in text else (NS,)):
+    if notool:
+        spaces = (NS_NOTOOL_A if alias else NS_NOTOOL,)
+    elif alias:
+        spaces = (NS_A, NS_ALT_A) if "pow" in text else (NS_A,)
+    else:
+        spaces = (NS, NS_ALT) if "pow" in text else (NS,)
+    for ns in spaces:
         try:
             outs.append(("ok", eval(text, _G, ns)))
         except Exception as e:  # noqa: BLE001
@@ -304,15 +354,18 @@ def engine(tool=False):
     if m is None:
         m = Mitochondria(silent=True, max_ros=float("inf"))
         if tool:
+            m.register_function("probe", lambda *a, **k: "decoy")  # re-registered below: the later binding counts
+            for n, f in ODD_TOOLS.items():
+                m.register_function(n, f)
             m.register_function("probe", _probe)
         _ENG[tool] = m
     return m
 
 
-def run_engine(text, mode, tool=False):
+def call_engine(m, text, mode):
     """-> (ok, value, pathway value)"""
     try:
-        r = engine(tool).metabolize(text, PW[mode])
+        r = m.metabolize(text, PW[mode])
     except Exception as e:  # noqa: BLE001 - totality is C01's clause; for C02 a raise is a failure report
         return False, f"raised {type(e).__name__}", "raised"
     if r.success and r.atp is not None:
@@ -320,11 +373,37 @@ def run_engine(text, mode, tool=False):
     return False, r.error, (r.pathway.value if r.pathway is not None else None)
 
 
-def verdict(refs, ok, val, pw, strict=False):
-    """None if acceptable, else (kind, expected description)"""
+def run_engine(text, mode, tool=False):
+    return call_engine(engine(tool), text, mode)
+
+
+def role(mode, pw):
+    """which pathway answered, as the CALLER knows it: the forced pathway is the one that was asked for (the result's own
+    `pathway` field is not trusted for it); only for auto-detection, whose choice the statement leaves to the engine, the
+    reported pathway is used. -> (bool coercion applies, true/false are allow-listed names)"""
+    p = pw if mode == "auto" else mode
+    return p == "logic", p in ("logic", "transform")
+
+
+class Refs:
+    """reference outcomes of one text, per name binding (computed on demand)"""
+    __slots__ = ("text", "notool", "_r")
+
+    def __init__(self, text, notool=False):
+        self.text, self.notool, self._r = text, notool, {}
+
+    def get(self, alias=False):
+        alias = alias and has_alias(self.text)
+        r = self._r.get(alias)
+        if r is None:
+            r = self._r[alias] = ref_eval(self.text, alias, self.notool)
+        return r
+
+
+def verdict(refs, ok, val, logic, strict=False):
+    """None if acceptable, else (kind, expected description); logic: bool coercion applies"""
     if not ok:
         return None
-    logic = pw == "logic"
     exp = []
     for kind, rv in refs:
         if kind == "exc":
@@ -343,7 +422,7 @@ BOOL_WORDS = ("True", "False", "true", "false")
 
 def _math_mismatch(sub, tool=False):
     ok, val, pw = run_engine(sub, "math", tool)
-    return verdict(ref_eval(sub), ok, val, pw, strict=True) is not None
+    return verdict(ref_eval(sub), ok, val, False, strict=True) is not None
 
 
 def _kids(node):
@@ -378,6 +457,11 @@ def _node_key(node):
     return f"walker:{type(node).__name__}"
 
 
+class _AliasesSpelledOut(ast.NodeTransformer):
+    def visit_Name(self, n):
+        return ast.Constant(value=ALIASES[n.id]) if n.id in ALIASES else n
+
+
 def blame(text, mode, ok, val, pw, tool=False):
     """deterministic mechanism key for a violating (text, mode)"""
     try:
@@ -394,6 +478,9 @@ def blame(text, mode, ok, val, pw, tool=False):
         else:
             return "toolcall-args:binding"
     elif pw == "logic":
+        if has_alias(text):  # the math pathway does not know the aliases: compare with the text that spells them True / False
+            node = _AliasesSpelledOut().visit(node)
+            text = ast.unparse(node)
         mok, mval, _ = run_engine(text, "math")
         if mok:
             try:
@@ -418,35 +505,70 @@ def blame(text, mode, ok, val, pw, tool=False):
             return _node_key(node)
 
 
+_PERMS = {n: list(itertools.permutations(range(n))) for n in range(1, 5)}
+
+
+def mode_order(text, modes):
+    """the order in which the pathways of one text are evaluated: a permutation chosen by a seed-independent digest of
+    the text, so that over a layer every pathway is evaluated before and after every other one in the same process"""
+    ps = _PERMS[len(modes)]
+    perm = ps[zlib.crc32(text.encode("utf-8", "surrogatepass")) % len(ps)]
+    return [modes[k] for k in perm]
+
+
+def record(acc, key, what, case, text, mode, pw):
+    acc["outcomes"].add((mode, pw, "VIOLATION", key))
+    cur = acc["viol"].get(key)
+    rank = (len(text), text, mode)
+    if cur is None:
+        acc["viol"][key] = [1, rank, what, case]
+    else:
+        cur[0] += 1
+        if rank < cur[1]:
+            cur[1], cur[2], cur[3] = rank, what, case
+
+
+def describe(text, mode, pw, val, v, after=()):
+    hist = f" (after the same text was evaluated on: {', '.join(after)})" if after else ""
+    return (f"{v[0]}: metabolize({text!r}, pathway={mode}) succeeded on the {pw} pathway with "
+            f"{short(val)} ({type(val).__name__}){hist}; {v[1]}")
+
+
+def history_key(text, mode, pw, tool, refs):
+    """naming only (never the verdict): a wrong answer for a text that the process had evaluated before on other pathways
+    is blamed on the history when the same expression in a spelling the process has never seen (one trailing blank) is
+    answered acceptably on the same pathway. The HIST layer names the culprit pathway precisely."""
+    fm = mode if mode != "auto" else pw
+    if fm not in PW or fm == "auto":
+        return None
+    ok2, val2, pw2 = run_engine(text + " ", fm, tool)
+    logic, alias = role(fm, pw2)
+    if verdict(refs.get(alias), ok2, val2, logic) is None:
+        return f"history:{fm}-answer-depends-on-earlier-evaluations-of-the-same-text"
+    return None
+
+
 def judge(text, modes, tool, acc):
-    """evaluate one text on all modes; update accumulators"""
-    refs = ref_eval(text)
+    """evaluate one text on all modes (order: see mode_order); update accumulators"""
+    refs = Refs(text)
     acc["n_expr"] += 1
     nontrivial = False
-    r0 = refs[0]
+    r0 = refs.get()[0]
     rname = type(r0[1]).__name__ if r0[0] == "ok" else r0[1]
-    for mode in modes:
+    done = []
+    for mode in mode_order(text, modes):
         ok, val, pw = run_engine(text, mode, tool)
         acc["n_eval"] += 1
         if ok:
             nontrivial = True
-            v = verdict(refs, ok, val, pw)
+            logic, alias = role(mode, pw)
+            v = verdict(refs.get(alias), ok, val, logic)
             if v is None:
                 acc["outcomes"].add((mode, pw, "agree", rname))
             else:
-                key = blame(text, mode, ok, val, pw, tool)
-                what = (f"{v[0]}: metabolize({text!r}, pathway={mode}) succeeded on the {pw} pathway with "
-                        f"{short(val)} ({type(val).__name__}); {v[1]}")
-                acc["outcomes"].add((mode, pw, "VIOLATION", key))
-                case = {"text": text, "mode": mode, "tool": tool}
-                cur = acc["viol"].get(key)
-                rank = (len(text), text, mode)
-                if cur is None:
-                    acc["viol"][key] = [1, rank, what, case]
-                else:
-                    cur[0] += 1
-                    if rank < cur[1]:
-                        cur[1], cur[2], cur[3] = rank, what, case
+                key = (done and history_key(text, mode, pw, tool, refs)) or blame(text, mode, ok, val, pw, tool)
+                record(acc, key, describe(text, mode, pw, val, v, done),
+                       {"text": text, "mode": mode, "tool": tool, "prior": list(done)}, text, mode, pw)
         else:
             if r0[0] == "ok":
                 acc["n_engine_fail_only"] += 1
@@ -455,10 +577,11 @@ def judge(text, modes, tool, acc):
                 acc["outcomes"].add((mode, pw, "both-fail", rname))
             if pw == "raised":
                 acc["n_engine_raised"] += 1
+        done.append(mode)
     if nontrivial:
         acc["n_nontrivial"] += 1
     acc["_last"] = (ok, val)
-    return refs
+    return refs.get()
 
 
 def new_acc():
@@ -601,7 +724,222 @@ TEXT_VARIANTS = [
     "factorial(5)", "degrees(pi)", "radians(180)", "trunc(-2.5)", "ceil(2.1)", "floor(-2.1)", "sqrt(16) + pi", "abs(-3)",
     "bool('')", "bool('False')", "len([1, 2, 3])", "len((1, 2))", "len('')", "min('b', 'a')", "max([1, 2], [1, 3])",
     "tau == 2 * pi", "inf > 10 ** 100", "-inf < 0", "inf - inf == inf - inf", "e ** 1 == e",
+    "true", "(false)", " true", "true # 1", "TRUE", "False_", "tRue", "not(true)", "true==True", "true<false", "[true,false]",
+    "[ true ]", "(true,)", "true if false else true", "truefalse", "true_", "nottrue", "x", "None_", "pi_",
 ]
+
+
+# ----------------------------------------------------------------------------------------------
+# HIST: history independence (the value of an expression is a function of the expression and the pathway)
+# ----------------------------------------------------------------------------------------------
+# Every HIST text is evaluated on every PERMUTATION of its four pathways, in one process, under every instance pattern;
+# every evaluation of the sequence is judged by the normal oracle. Each (round, slice) task runs in a newly forked child of
+# the engine-free parent and contains every text at most once, so the first evaluation of a sequence is the first time
+# the process sees that text (text-fresh), while the instances and the process already have a long history of other texts.
+HIST_TEXTS: list = []  # (text, tool family)
+HIST_MODES = {False: ("auto", "math", "logic", "transform"), True: ("auto", "math", "logic", "tool")}
+PERMS4 = list(_PERMS[4])  # thorough: all 24 orders; quick: the 12 orders (a, b, rest ascending), one per ordered pair (a, b)
+PERMS4_QUICK = [p for p in _PERMS[4] if p[2] < p[3]]
+# instance of the k-th evaluation of a sequence. A: configuration of the other layers, tool registered after construction;
+# B: every constructor option non-default, tool passed to the constructor, default (finite) max_ros kept usable by the
+# public repair() before every call; C: an instance the tool was never given to (tool family only, after the sequence)
+HIST_PATTERNS = ("AAAA", "ABAB", "BABA")
+HIST_SLICES = 16
+
+
+class _Null(io.TextIOBase):
+    def write(self, s):
+        return len(s)
+
+
+def hist_instances():
+    a = Mitochondria(silent=True, max_ros=float("inf"))
+    a.register_function("probe", lambda *a, **k: "decoy")
+    a.register_function("probe", _probe)
+    b = Mitochondria(timeout_seconds=0.25, tools=[SimpleTool(name="probe", description="", func=_probe)],
+                     allowed_capabilities=set(), silent=False)
+    c = Mitochondria(silent=True, max_ros=float("inf"))
+    return {"A": a, "B": b, "C": c}
+
+
+def hist_sequence(tool, pattern, perm):
+    modes = HIST_MODES[tool]
+    seq = [(modes[k], HIST_PATTERNS[pattern][pos]) for pos, k in enumerate(perm)]
+    if tool:
+        seq += [("auto", "C"), ("tool", "C")]
+    return seq
+
+
+def hist_eval(inst, text, mode, iname):
+    m = inst[iname]
+    if iname == "B":
+        m.repair(10.0)
+    return call_engine(m, text, mode)
+
+
+def outsig(ok, val):
+    """compact signature of an answer (0 = failure); floats as `same` compares them (sign of zero ignored)"""
+    if not ok:
+        return 0
+
+    def norm(v):
+        if isinstance(v, (list, tuple)):
+            return (type(v).__name__, tuple(norm(x) for x in v))
+        if isinstance(v, float) and v == 0:
+            return ("float", "0.0")
+        return vkey(v)
+    return 1 + zlib.crc32(repr(norm(val)).encode("utf-8", "backslashreplace"))
+
+
+def hist_judge(text, seq, pos, ok, val, pw, refs):
+    """verdict of the evaluation at `pos` of the sequence -> None | (kind, expected)"""
+    mode, iname = seq[pos]
+    logic, alias = role(mode, pw)
+    return verdict(refs[iname == "C"].get(alias), ok, val, logic)
+
+
+def _pname(mode, pw):
+    return mode if mode != "auto" else (pw or "auto")
+
+
+def work_hist(task):
+    r, s = task
+    pattern, pr = divmod(r, len(PERMS4))
+    out = {"n_eval": 0, "n_seq": 0, "n_ok": 0, "recs": [], "sigs": [], "outcomes": set()}
+    saved = sys.stdout
+    sys.stdout = _Null()
+    try:
+        inst = hist_instances()
+        for ti in range(s, len(HIST_TEXTS), HIST_SLICES):
+            text, tool = HIST_TEXTS[ti]
+            perm = PERMS4[(pr + ti + ti // HIST_SLICES) % len(PERMS4)]
+            seq = hist_sequence(tool, pattern, perm)
+            refs = {False: Refs(text), True: Refs(text, notool=True)}
+            sig, ran = [], []
+            for pos, (mode, iname) in enumerate(seq):
+                ok, val, pw = hist_eval(inst, text, mode, iname)
+                out["n_eval"] += 1
+                sig.append(outsig(ok, val))
+                status = "fail"
+                if ok:
+                    out["n_ok"] += 1
+                    v = hist_judge(text, seq, pos, ok, val, pw, refs)
+                    status = "agree" if v is None else "VIOLATION"
+                    if v is not None:
+                        out["recs"].append({"ti": ti, "r": r, "pos": pos, "mode": mode, "inst": iname, "pw": pw,
+                                            "ran": list(ran), "what": describe(text, mode, pw, val, v), "key": None})
+                out["outcomes"].add(("hist", mode, iname, min(pos, 1), status))
+                ran.append(_pname(mode, pw))
+            out["n_seq"] += 1
+            out["sigs"].append((ti, r, tuple(sig)))
+        # mechanism keys of text-fresh violations: computed after all sequences of the task (blame evaluates
+        # sub-expressions, which must not become part of the history of a sequence under test)
+        for rec in out["recs"]:
+            if rec["pos"] == 0:
+                text, tool = HIST_TEXTS[rec["ti"]]
+                ok, val, pw = run_engine(text, rec["mode"], tool)
+                rec["key"] = blame(text, rec["mode"], ok, val, pw, tool) if ok else "fresh-answer-not-reproducible"
+    finally:
+        sys.stdout = saved
+    return out
+
+
+def fresh_pmap(fn, items):
+    """ordered map; every item is processed by a newly forked child of this process (maxtasksperchild=1)"""
+    items = list(items)
+    if common.NPROC <= 1 or os.environ.get("VERIF_SERIAL") or len(items) <= 1:
+        return [fn(x) for x in items]  # debugging mode: no fresh process state
+    common._WORK_FN = fn
+    mp = multiprocessing.get_context("fork")
+    with mp.Pool(min(common.NPROC, len(items)), maxtasksperchild=1) as pool:
+        res = pool.map(common._call, items, 1)
+    out = []
+    for tag, val in res:
+        if tag == "err":
+            raise common.HarnessError("worker crashed:\n" + val)
+        out.append(val)
+    return out
+
+
+def hist_key(rec, group):
+    """mechanism key of a violation that only appears after other evaluations of the same text"""
+    if rec["inst"] == "C":
+        return "tool-registry:tool-call-succeeds-on-an-instance-that-never-got-the-tool"
+    seq_of = lambda x: hist_sequence(HIST_TEXTS[x["ti"]][1], x["r"] // len(PERMS4), _perm_of(x))  # noqa: E731
+    wide = any(all(i != x["inst"] for _m, i in seq_of(x)[:x["pos"]]) for x in group)
+    return (f"history:{_pname(rec['mode'], rec['pw'])}-after-{'+'.join(rec['ran'])}:"
+            f"{'process-wide' if wide else 'same-instance'}")
+
+
+def _perm_of(rec):
+    ti, r = rec["ti"], rec["r"]
+    return PERMS4[(r % len(PERMS4) + ti + ti // HIST_SLICES) % len(PERMS4)]
+
+
+def run_hist(ctx, total, sizes):
+    nrounds = len(HIST_PATTERNS) * len(PERMS4)
+    tasks = [(r, s) for r in range(nrounds) for s in range(HIST_SLICES)]
+    parallel = not (common.NPROC <= 1 or os.environ.get("VERIF_SERIAL"))
+    if parallel and _ENG:
+        raise common.HarnessError("HIST: the parent process has already used an engine; forked children would not be fresh")
+    k = ctx.seed % len(tasks)
+    order = tasks[k:] + tasks[:k]
+    res = dict(zip(order, fresh_pmap(work_hist, order)))
+    recs, fresh, later = [], {}, []
+    n_eval = n_seq = n_ok = 0
+    for t in tasks:
+        o = res[t]
+        n_eval += o["n_eval"]
+        n_seq += o["n_seq"]
+        n_ok += o["n_ok"]
+        recs += o["recs"]
+        total["outcomes"] |= o["outcomes"]
+        for ti, r, sig in o["sigs"]:
+            tool = HIST_TEXTS[ti][1]
+            seq = hist_sequence(tool, r // len(PERMS4), PERMS4[(r % len(PERMS4) + ti + ti // HIST_SLICES) % len(PERMS4)])
+            fresh.setdefault((ti, seq[0][0]), set()).add(sig[0])
+            later += [(ti, seq[pos][0], sig[pos]) for pos in range(1, 4)]
+    if n_seq != nrounds * len(HIST_TEXTS):
+        raise common.HarnessError(f"HIST: {n_seq} sequences executed, expected {nrounds * len(HIST_TEXTS)}")
+    if len(fresh) != 4 * len(HIST_TEXTS):
+        raise common.HarnessError("HIST: some (text, pathway) was never evaluated text-fresh")
+    # differential view (counted, not asserted: the statement lets the engine fail where Python succeeds, so an answer
+    # that turns into a failure - or a failure that turns into the right value - is not a violation by itself; two
+    # different SUCCESSFUL values always show up as a violation of the Python oracle above)
+    unstable = sum(1 for v in fresh.values() if len(v) > 1)
+    flips = diffs = 0
+    for ti, mode, sg in later:
+        f = fresh[(ti, mode)]
+        if sg not in f:
+            if sg == 0 or 0 in f:
+                flips += 1
+            else:
+                diffs += 1
+    # violations
+    groups = {}
+    for rec in recs:
+        groups.setdefault((rec["ti"], rec["mode"], rec["inst"] == "C"), []).append(rec)
+    for gk in sorted(groups):
+        group = sorted(groups[gk], key=lambda x: (x["pos"], x["r"]))
+        rec = group[0]
+        text, tool = HIST_TEXTS[rec["ti"]]
+        key = rec["key"] if rec["pos"] == 0 and rec["inst"] != "C" else hist_key(rec, group)
+        seq = hist_sequence(tool, rec["r"] // len(PERMS4), _perm_of(rec))
+        what = rec["what"]
+        if rec["pos"]:
+            what += (f" - evaluation {rec['pos'] + 1} of the sequence {[f'{m}@{i}' for m, i in seq[:rec['pos'] + 1]]} in one process"
+                     f" (A, B, C: distinct Mitochondria instances); violating sequences of this text and pathway: {len(group)}")
+        case = {"hist": True, "text": text, "tool": tool, "seq": [list(x) for x in seq[:rec["pos"] + 1]], "key": key}
+        record(total, key, what, case, text, rec["mode"], rec["pw"])
+    total["n_eval"] += n_eval
+    sizes["HIST.texts(not in distinct counts)"] = len(HIST_TEXTS)
+    sizes["HIST.sequences"] = n_seq
+    sizes["HIST.evaluations"] = n_eval
+    return {"texts": len(HIST_TEXTS), "tool_family_texts": sum(1 for _t, tool in HIST_TEXTS if tool), "sequences": n_seq,
+            "evaluations": n_eval, "engine_successes_judged": n_ok, "orders_per_text": len(PERMS4),
+            "instance_patterns": list(HIST_PATTERNS), "fresh_processes": len(tasks) if parallel else 0,
+            "fresh_answers_unstable": unstable, "answer_turned_into_or_from_failure": flips,
+            "successful_value_differs_from_fresh": diffs}
 
 
 # ----------------------------------------------------------------------------------------------
@@ -748,8 +1086,28 @@ def run(ctx):
     LAYERS["FE2"] = fe2
     run_layer(fe2)
 
+    # ---- NM: names Python cannot resolve -----------------------------------------------------------
+    # `true` / `false` (aliases on the logic and transform pathways only, see ALIASES) and a name that is bound nowhere:
+    # NM1 = every constructor over them (depth 1), NM2 = every depth-1 member UNREDUCED in every observing context
+    names = [mk(t, atomic=True) for t in ("true", "false", "x")]
+    nm_partners = [mk(t, atomic=True) for t in ["1", "0", "2.5", "True", "'a'", "'true'"]]
+    nm1 = Layer("NM1", D=names, S=nm_partners, pairs="full", Dt=names[:2], St=nm_partners[:1] + nm_partners[4:5])
+    LAYERS["NM1"] = nm1
+    run_layer(nm1)
+    sk = [0]
+    nm_members = []
+    nm_src = Layer("NM1s", D=names, S=nm_partners[:1] + nm_partners[4:5])
+    for (_n, kind, i) in nm_src.tasks():
+        if kind == "U":
+            nm_members.extend(nm_src.gen(kind, i, sk))
+    nm_members.sort(key=lambda t: (len(t), t))
+    nm2 = Layer("NM2", D=[mk(t) for t in nm_members], S=nm_partners[: (2 if thorough else 1)], pairs="mixed-nodiag",
+                observe_only=True, modes=m3)
+    LAYERS["NM2"] = nm2
+    run_layer(nm2)
+
     # ---- TOOL / TV lists ----------------------------------------------------------------------------
-    pool = full + r1_narrow
+    pool = full + r1_narrow + names
     tool_texts = []
     for a in pool:
         tool_texts.append(f"probe({a.t})")
@@ -758,6 +1116,9 @@ def run(ctx):
             tool_texts.append(f"probe({a.t}, {b.t})")
             tool_texts.append(f"probe({a.t}, k={b.t})")
             tool_texts.append(f"probe(j={b.t}, k={a.t})")
+    for f in ODD_TOOLS:
+        for args in ("", "1", "k='a'", "0, k=2.5", "1 / 0", "true", "k=x"):
+            tool_texts.append(f"{f}({args})")
     LISTS["TOOL"] = tool_texts
     LIST_MODES["TOOL"] = ("auto", "tool")
     before = total["n_expr"]
@@ -772,6 +1133,29 @@ def run(ctx):
     sizes["TV(not in distinct counts)"] = tv["n_expr"]
     tv["n_expr"] = tv["n_nontrivial"] = 0
     merge_acc(total, tv)
+
+    # ---- HIST: history independence -------------------------------------------------------------------
+    # text-sensitive family: all of FE1, NM1 and TV; structural family: every depth-1 constructor over the tiny leaves;
+    # tool family: tool calls over names, trigger strings and plain leaves
+    sk = [0]
+    hist = {}
+    hs = Layer("HS", D=tiny, Dt=minimal)
+    for lay in (fe1, nm1, hs):
+        for (_n, kind, i) in lay.tasks():
+            for t in lay.gen(kind, i, sk):
+                hist[(t, False)] = None
+    for t in TEXT_VARIANTS:
+        hist[(t, False)] = None
+    hpool = names + [by_text[t] for t in ("0", "2", "'a'", "'True'")] + [mk("'true'", atomic=True)]
+    for a in hpool:
+        hist[(f"probe({a.t})", True)] = None
+        hist[(f"probe(k={a.t})", True)] = None
+        for b in hpool:
+            hist[(f"probe({a.t}, {b.t})", True)] = None
+            hist[(f"probe({a.t}, k={b.t})", True)] = None
+    HIST_TEXTS[:] = sorted(hist)
+    PERMS4[:] = list(_PERMS[4]) if thorough else PERMS4_QUICK
+    hist_cov = run_hist(ctx, total, sizes)
 
     # ---- report ---------------------------------------------------------------------------------------
     for key in sorted(total["viol"]):
@@ -816,7 +1200,11 @@ def run(ctx):
         "P2 (depth 2: >=1 child = value-class representative of a depth-1 layer, others leaves), P3 (thorough, depth 3 "
         "likewise), VAL (every member of the validation layer in every depth-1 context), FE (unreduced trigger-string "
         "expressions in observing contexts), TOOL (tool-call arguments), TV (hand-written lexical variants; judged, but not "
-        "counted as states because they may coincide with generated texts); the layers are disjoint by construction, so a "
+        "counted as states because they may coincide with generated texts), NM (names Python cannot resolve: true/false/x, "
+        "depth 1 complete and depth 2 unreduced in observing contexts); HIST (history independence: every text of FE1, NM1, TV, "
+        "a complete depth-1 structural layer over 4 leaves and a tool-call family is evaluated on all 24 orders (quick: the 12 orders that start with each ordered "
+        "pair) of its four pathways x 3 instance patterns, each sequence text-fresh in a newly forked process, every evaluation judged; its "
+        "evaluations are counted as transitions, its texts are not counted as states); the layers are disjoint by construction, so a "
         "state is one distinct expression text and a transition one metabolize() call of it on one pathway (auto, math, "
         "logic, transform[, tool]); distinct_nontrivial = distinct texts the engine accepted on >=1 pathway, i.e. whose "
         "value was compared with Python's",
@@ -824,12 +1212,26 @@ def run(ctx):
         layer_sizes=sizes,
         depth_completed=3 if thorough else 2,
         leaves=LEAVES_FULL,
-        pathways=["auto", "math", "logic", "transform", "tool (TOOL layer only)"],
+        pathways=["auto", "math", "logic", "transform", "tool (TOOL layer and HIST tool family)"],
+        pathway_order="per text a permutation of its pathways chosen by crc32(text): every pathway runs before and after "
+        "every other one inside the worker processes",
+        history_independence=hist_cov,
         magnitude_skipped=total["n_skipped"],
         engine_fails_python_succeeds=total["n_engine_fail_only"],
         reduction_validation={"pairs": total["val_pairs"], "mismatches": total["val_mismatch"]},
     )
+    if hist_cov["answer_turned_into_or_from_failure"] or hist_cov["fresh_answers_unstable"]:
+        ctx.note(f"history dependence that the statement allows (success <-> failure, values never differ): "
+                 f"{hist_cov['answer_turned_into_or_from_failure']} evaluations answer differently from the text-fresh evaluation of "
+                 f"the same (text, pathway); {hist_cov['fresh_answers_unstable']} (text, pathway) pairs have no unique text-fresh answer")
     ctx.assumptions += [
+        "the lowercase names true/false are allow-listed aliases of True/False on the logic pathway (its documented "
+        "normalisation) and on the JSON-first transform pathway; on the math and tool pathways they are unknown names, so "
+        "Python raises NameError and the engine has to report failure",
+        "bool coercion / alias names are decided by the pathway the CALLER forced (the result's pathway field is only used "
+        "for auto-detected calls)",
+        "history independence is judged with the statement's one-directional oracle on every evaluation of a sequence; a "
+        "success turning into a failure (or back) after other evaluations is counted, not reported",
         "value-class reduction: a parent's behaviour depends on a child only through the child's value/exception "
         "(validated by the VAL layer for every member of the validation layer, not proven for deeper layers)",
         "reference = builtin eval over names fetched by name from builtins/math; `pow` may be math.pow or builtins.pow",
@@ -839,10 +1241,33 @@ def run(ctx):
 
 
 def replay(ctx, case):
-    text, mode, tool = case["text"], case["mode"], bool(case.get("tool"))
+    text, tool = case["text"], bool(case.get("tool"))
+    if case.get("hist"):
+        # the recorded sequence of (pathway, instance) evaluations of the text, in this (fresh) process
+        seq = [tuple(x) for x in case["seq"]]
+        saved = sys.stdout
+        sys.stdout = _Null()
+        try:
+            inst = hist_instances()
+            for mode, iname in seq:
+                ok, val, pw = hist_eval(inst, text, mode, iname)
+        finally:
+            sys.stdout = saved
+        refs = {False: Refs(text), True: Refs(text, notool=True)}
+        v = hist_judge(text, seq, len(seq) - 1, ok, val, pw, refs) if ok else None
+        if v is None:
+            return []
+        mode = seq[-1][0]
+        key = case["key"] if len(seq) > 1 else blame(text, mode, ok, val, pw, tool)
+        return [(key, describe(text, mode, pw, val, v, [f"{m}@{i}" for m, i in seq[:-1]]))]
+    mode = case["mode"]
+    prior = list(case.get("prior") or ())
+    for m in prior:  # the pathways the same worker process had evaluated this text on before
+        run_engine(text, m, tool)
     ok, val, pw = run_engine(text, mode, tool)
-    v = verdict(ref_eval(text), ok, val, pw)
+    logic, alias = role(mode, pw)
+    v = verdict(Refs(text).get(alias), ok, val, logic)
     if v is None:
         return []
-    key = blame(text, mode, ok, val, pw, tool)
-    return [(key, f"{v[0]}: metabolize({text!r}, pathway={mode}) -> {short(val)} on the {pw} pathway; {v[1]}")]
+    key = (prior and history_key(text, mode, pw, tool, Refs(text))) or blame(text, mode, ok, val, pw, tool)
+    return [(key, describe(text, mode, pw, val, v, prior))]
